@@ -91,6 +91,12 @@ func buildAccount(ct c13Content, r *Rng) *jwt.AccountClaims {
 		rs[i]()
 	}
 	a.Exports.Add(ex)
+	if len(ct.Maps)%2 == 1 {
+		// the same subject exported a second time as a service (legal: streams and services are checked apart), always
+		// in this order: equal keys must not make the sort inside Encode flip them from one encode to the next
+		a.Exports.Add(&jwt.Export{Subject: "exp.>", Type: jwt.Service})
+		a.Imports.Add(&jwt.Import{Subject: "imp.a", Account: kr.acct[1], Type: jwt.Stream}, &jwt.Import{Subject: "imp.a", Account: kr.acct[2], Type: jwt.Stream, LocalSubject: "loc.a"})
+	}
 	return a
 }
 
@@ -114,7 +120,7 @@ func buildGeneric(ct c13Content, r *Rng) *jwt.GenericClaims {
 }
 
 func runC13(c *Ctx) {
-	c.Res.Rule = "equal contents built through random insertion orders of signing keys (plain, scoped, and scoped entries whose Key field was re-keyed to collide with another entry), account and export revocations, mappings, limit tiers and generic data (incl. a nested object; tier and mapping names that differ only by case or padding, with different values); every tenth content carries a revocation list of 150-300 entries with a covering wildcard; every third object first encoded with different standard fields and then edited back (equal content through a different history); each object encoded repeatedly in one process (the runtime re-randomises map iteration per loop) under GOMAXPROCS 1 and 16; all tokens whose issue time agrees must be byte-identical, across objects and across repetitions. Each object also goes through the Lean model's Encode. non-trivial = distinct contents."
+	c.Res.Rule = "equal contents built through random insertion orders of signing keys (plain, scoped, and scoped entries whose Key field was re-keyed to collide with another entry), account and export revocations, mappings, limit tiers and generic data (half of the accounts also carry two exports and two imports with one and the same subject; incl. a nested object; tier and mapping names that differ only by case or padding, with different values); every tenth content carries a revocation list of 150-300 entries with a covering wildcard; every third object first encoded with different standard fields and then edited back (equal content through a different history); each object encoded repeatedly in one process (the runtime re-randomises map iteration per loop) under GOMAXPROCS 1 and 16; all tokens whose issue time agrees must be byte-identical, across objects and across repetitions. Each object also goes through the Lean model's Encode. non-trivial = distinct contents."
 	old := runtime.GOMAXPROCS(0)
 	defer runtime.GOMAXPROCS(old)
 	nContents := c.N(60, 3000)
